@@ -169,3 +169,4 @@ def _config(ctx, idx):
 def run(ctx):
     for i in range(ctx.budget(10, 50)):
         _config(ctx, i)
+        ctx.gc(4)
